@@ -137,6 +137,17 @@ def gen(seed, tier, extra=None):
         for oi in range(rng.randint(3, 30 if big else 16)):
             ops.append(gen_op(rng, f'c{ci}_{oi}', arrays, objects, strings, n_tmp))
         plan['clients'].append(ops)
+    # a script match function that keeps its argument array (single-client runs only: its statements are pre-emption
+    # points, and the reference applies an operation atomically)
+    rk = stream(seed, 'keep')
+    if n_clients == 1 and arrays and rk.random() < 0.3:
+        for j in range(rk.randint(1, 2)):
+            args = [['var', rk.choice(arrays)], ['var', 'fnKeep']]
+            if rk.random() < 0.3:
+                args.append(['num', rk.choice(IDX)])
+            ops = plan['clients'][0]
+            ops.insert(rk.randint(0, len(ops)), {'id': f'c0_k{j}', 'fn': rk.choice(['arrayIndexOf', 'arrayLastIndexOf']),
+                                                 'args': args, 'target': None, 'fault': None})
     for j, d in enumerate(pool_directed):
         ops = plan['clients'][0]
         ops.insert(rq.randint(0, min(3, len(ops))), {'id': f'c0_q{j}', 'fn': d['fn'], 'args': d['args'], 'target': None,
@@ -382,10 +393,13 @@ def run(plan, stats):
     real_pool = build_pool(plan['pool'], True)
     ref_pool = build_pool(plan['pool'], False)
     opaque = {'vDt': Opaque('datetime'), 'vRe': Opaque('regex'), 'hostNop': Opaque('function'), 'hostPred': Opaque('pred'),
+              'fnKeep': Opaque('pred:keep'),
               'hostCmp': Opaque('cmp:desc'), 'hostCmpLen': Opaque('cmp:len'), 'hostCmpNested': Opaque('cmp:nested'),
               'hostCmpDiff': Opaque('cmp:diff')}
     ref_globals = dict(ref_pool)
     ref_globals.update(opaque)
+    ref_globals['gKept'] = []
+    refheap.KEPT[0] = ref_globals['gKept']
     ops_by_id = {op['id']: op for ops in plan['clients'] for op in ops}
     rng = stream(plan.get('seed', 0), 'schedule')
     sched = Scheduler(rng, max_events=20000, policy=plan.get('policy', 'random'))
@@ -410,6 +424,12 @@ def run(plan, stats):
         stats.faults['nested_sort_inside_compare_function'] += 1
         return refheap.cmp_value('nested', args[0], args[1])
     globals_['hostCmpNested'] = host_cmp_nested
+    # fnKeep(vals...): a SCRIPT match function with only a last-argument array, which it keeps (the way the shipped
+    # unittestMock functions log their calls) before answering like hostPred
+    globals_['gKept'] = []
+    execute_script({'statements': [ir.st_function('fnKeep', ['vals'], [
+        ir.st_expr(ir.call('arrayPush', ir.var('gKept'), ir.var('vals'))),
+        ir.st_return(ir.call('hostPred', ir.call('arrayGet', ir.var('vals'), ir.num(0))))], True)]}, {'globals': globals_})
 
     def ref_arg(a):
         if a[0] == 'var':
